@@ -419,7 +419,7 @@ def rule_commit_then_fail(chk):
                        detail="the relocation entry created here is still live at the failing exit %s" % (
                            ("line %d" % fn.line_of(w)) if isinstance(w, int) else ("label %s" % w[1] if w else "")),
                        key="commitfail|" + inst)
-    chk.floor(R + ":creations", n, 7)
+    chk.floor(R + ":creations", n, 5)
 
 
 def run(chk):
